@@ -171,6 +171,8 @@ structure Sess where
   lastUse : Nat := 0
   expired : Bool := false
   reserved : Bool := false
+  /-- UDP port of the peer address (the harness uses one host) -/
+  port : Nat := 0
 deriving Repr, DecidableEq, Inhabited
 
 /-- the header fields of a received message the session layer looks at -/
@@ -346,13 +348,13 @@ def Table.get (t : Table) (uid now : Nat) : Table × Option Sess :=
   | none => (t, none)
 
 /-- `Sessions::add` -/
-def Table.add (t : Table) (ctr : Nat) (reserved : Bool) (now : Nat) : Table × Except Err Nat :=
+def Table.add (t : Table) (ctr : Nat) (reserved : Bool) (now : Nat) (port : Nat := 0) : Table × Except Err Nat :=
   let uid := t.nextUid
   let n := if uid + 1 > 0x0fffffff then 0 else uid + 1
   let t := { t with nextUid := n }
   if t.sessions.length ≥ Consts.maxSessions then (t, .error .noSpaceSessions)
   else
-    let s : Sess := { uid := uid, ctr := ctr % (Consts.msgCtrRange + 1), reserved := reserved, lastUse := now }
+    let s : Sess := { uid := uid, ctr := ctr % (Consts.msgCtrRange + 1), reserved := reserved, lastUse := now, port := port }
     ({ t with sessions := t.sessions ++ [s] }, .ok uid)
 
 /-- `Vec::swap_remove(i)` -/
@@ -422,12 +424,12 @@ def Table.reservedUpdate (t : Table) (uid localSid peerSid : Nat) (mode : Mode) 
   let (t, so) := t.get uid now
   match so with
   | none => (t, false)
-  | some s => (t.setSess { s with localSid := localSid, peerSid := peerSid, mode := mode }, true)
+  | some s => (t.setSess { s with localSid := localSid, peerSid := peerSid, mode := mode, port := peerSid }, true)
 
 def Table.reservedComplete (t : Table) (uid now : Nat) : Table × Except Err Unit :=
   let (t, so) := t.get uid now
   match so with
-  | none => (t, .error .panic)
+  | none => (t, .ok ())   -- the session was removed meanwhile: nothing to do (after the repair)
   | some s => (t.setSess { s with reserved := false }, .ok ())
 
 /-- first dropped exchange with (`true`) / without (`false`) a pending retransmission, in table order:
@@ -449,7 +451,7 @@ inductive SweepOut
   /-- the session was closed (close-session sent with a fresh exchange id and counter) -/
   | closedSession (uid : Nat) (xid : Nat) (ctr : Nat)
   /-- the slot was freed; `ack = some (ctr, acked counter)` if a standalone ack was written -/
-  | closedExchange (uid i : Nat) (ack : Option (Nat × Nat))
+  | closedExchange (uid i xid : Nat) (ack : Option (Nat × Nat))
 deriving Repr, DecidableEq, Inhabited
 
 /-- `TransportRunner::handle_dropped_exchange` (table part) -/
@@ -476,13 +478,53 @@ def Table.sweepDropped (t : Table) (now : Nat) : Table × SweepOut :=
             let (s', r) := s.preSend (some i) false none none
             let s'' := { s' with exchs := s'.exchs.set i none }
             match r with
-            | .ok o => (t.setSess s'', .closedExchange uid i (some (o.ctr, (o.ack.getD 0))))
-            | .error _ => (t.setSess s'', .closedExchange uid i none)
+            | .ok o => (t.setSess s'', .closedExchange uid i e.id (some (o.ctr, (o.ack.getD 0))))
+            | .error _ => (t.setSess s'', .closedExchange uid i e.id none)
           else
-            (t.setSess { s with exchs := s.exchs.set i none }, .closedExchange uid i none)
+            (t.setSess { s with exchs := s.exchs.set i none }, .closedExchange uid i e.id none)
         | none => (t, .nothing)
       | none => (t, .nothing)
     | none => (t, .nothing)
+
+/-- `Session::is_for_rx` for the headers the harness builds (no node ids) -/
+def Sess.isForRx (s : Sess) (port sessId : Nat) : Bool :=
+  s.localSid == sessId && s.port == port && (s.mode.enc == (sessId != 0)) && !s.reserved
+
+/-- `Sessions::get_for_rx`: first match in table order; touches `last_use` -/
+def Table.getForRx (t : Table) (port sessId now : Nat) : Table × Option Sess :=
+  match t.sessions.find? (fun s => s.isForRx port sessId) with
+  | some s => t.get s.uid now
+  | none => (t, none)
+
+/-- `handle_accept_timeout_rx_packet` on an occupied RX slot: `true` = slot emptied
+(the exchange nobody accepted within the deadline is marked dropped) -/
+def Table.sweepAccept (t : Table) (port sessId : Nat) (h : RxHdr) (now : Nat) : Table × Bool :=
+  let (t, so) := t.getForRx port sessId now
+  match so with
+  | none => (t, false)
+  | some s =>
+    match s.getExchForRx h with
+    | none => (t, false)
+    | some i =>
+      match s.slot i with
+      | none => (t, false)
+      | some e =>
+        if e.role = .rp && e.mrp.hasRxTimedOut Consts.acceptTimeoutMs now then
+          (t.setSess { s with exchs := s.exchs.set i (some { e with role := .rd }) }, true)
+        else (t, false)
+
+/-- `handle_orphaned_rx_packet` on an occupied RX slot: `true` = slot emptied -/
+def Table.sweepOrphan (t : Table) (port sessId : Nat) (h : RxHdr) (now : Nat) : Table × Bool :=
+  let (t, so) := t.getForRx port sessId now
+  match so with
+  | none => (t, true)
+  | some s =>
+    match s.getExchForRx h with
+    | none => (t, true)
+    | some i =>
+      match s.slot i with
+      | none => (t, true)
+      | some e => (t, e.role.isDropped)
 
 /-! ## Canonical text of the state (compared with the implementation's snapshot) -/
 
@@ -500,7 +542,7 @@ def Mode.name : Mode → String
   | .plain => "x" | .pase => "p" | .case => "c"
 
 def Sess.show (s : Sess) : String :=
-  s!"s{s.uid} l{s.localSid} c{s.ctr} {if s.expired then "e" else "-"}{if s.reserved then "r" else "-"} {s.mode.name}" ++
+  s!"s{s.uid} l{s.localSid} c{s.ctr} {if s.expired then "e" else "-"}{if s.reserved then "r" else "-"} {s.mode.name} P{s.port}" ++
   String.join (s.exchs.map (fun o => match o with
     | some e => " " ++ e.show
     | none => " [-]"))
